@@ -239,6 +239,11 @@ int32_t matrixSslNewClientSession(ssl_t **ssl, const sslKeys_t *keys,
         }
         rc = Strlen(expectedName);
         lssl->expectedName = psMalloc(lssl->sPool, rc + 1);
+        if (lssl->expectedName == NULL)
+        {
+            matrixSslDeleteSession(lssl);
+            return PS_MEM_FAIL;
+        }
         Strcpy(lssl->expectedName, expectedName);
         Memcpy(&lssl->validateCertsOpts,
             &options->validateCertsOpts,
